@@ -29,6 +29,12 @@ fn main() {
         },
     };
     let code = match args[1].as_str() {
+        "C01" => props::c01::run(tier, seed),
+        "C01-child" => props::c01::run_child(tier, seed),
+        "C01-one" => {
+            let idx: usize = args.get(4).and_then(|s| s.parse().ok()).unwrap_or(0);
+            props::c01::run_one(tier, args.get(3).map(|s| s.as_str()).unwrap_or(""), idx)
+        }
         "C02" => props::c02::run(tier, seed),
         "C03" => props::c03::run(tier, seed),
         "C04" => props::c04::run(tier, seed),
@@ -43,6 +49,10 @@ fn main() {
         "C17" => props::c17::run(tier, seed),
         "C18" => props::c18::run(tier, seed),
         "C19" => props::c19::run(tier, seed),
+        "C12" => props::c12::run(tier, seed),
+        "C13" => props::c13::run(tier, seed),
+        "C14" => props::c14::run(tier, seed),
+        "C11" => props::c11::run(tier, seed),
         "C20" => props::c20::run(tier, seed),
         "replay" => {
             let path = args.get(2).unwrap_or_else(|| usage());
@@ -50,6 +60,7 @@ fn main() {
             let v: serde_json::Value = serde_json::from_str(&text).expect("parse replay file");
             let case: report::Case = serde_json::from_value(v["case"].clone()).expect("case");
             let f: fn(&report::Case) -> Result<(), String> = match case.prop.as_str() {
+                "C01" => props::c01::replay,
                 "C02" => props::c02::replay,
                 "C03" => props::c03::replay,
                 "C04" => props::c04::replay,
@@ -64,6 +75,10 @@ fn main() {
                 "C17" => props::c17::replay,
                 "C18" => props::c18::replay,
                 "C19" => props::c19::replay,
+                "C12" => props::c12::replay,
+                "C13" => props::c13::replay,
+                "C14" => props::c14::replay,
+                "C11" => props::c11::replay,
                 "C20" => props::c20::replay,
                 p => {
                     eprintln!("no replay for {p}");
